@@ -2,7 +2,7 @@ import FunProofs.QueueSeq
 
 /-! The non-destructive iterator of `pubsub.Queue` (C20, safety): cursors, entry identities, links. -/
 namespace FunModel.Queue
-open FunModel.Conc
+open FunModel.Conc FunModel.ConcSubj
 
 /-! ### cursors -/
 
